@@ -94,7 +94,20 @@ def tt_spec_ok(impl, spec):
 # generators
 
 def positions(seed, n):
-    return wee.driver_positions(seed, n)
+    """generated legal positions (corpus first, then weighted random play); a quarter of them get other move counters
+    (around the fifty-move mark, large, extreme): nothing but make-move and the FEN writer may read them"""
+    fens = wee.driver_positions(seed, n)
+    rnd = random.Random(seed * 7919 + 13)
+    return [clock_variant(f, rnd) if rnd.random() < 0.25 else f for f in fens]
+
+
+def clock_variant(f, rnd):
+    p = f.split(" ")
+    if len(p) != 6:
+        return f
+    p[4] = str(rnd.choice([0, 1, 7, 49, 50, 51, 98, 99, 100, 101, 149, 150, 1000, 2 ** 32, 2 ** 64 - 2]))
+    p[5] = str(rnd.choice([1, 2, 30, 75, 76, 200, 5899, 2 ** 63]))
+    return " ".join(p)
 
 
 def ep_family():
